@@ -215,6 +215,10 @@ pub struct UdpHistoryCase {
     pub seed: u64,
     /// start the first session this many ids below u64::MAX (0 = normal start)
     pub near_max: u8,
+    /// after every `reply_every`-th datagram the client codec decodes a (reference-built) server reply, whose packet
+    /// ids count from 1 on the server's own counter (0 = the client only sends)
+    #[serde(default)]
+    pub reply_every: u8,
 }
 
 pub struct UdpHistory;
@@ -226,8 +230,8 @@ impl SubCheck for UdpHistory {
     }
     fn strategy(&self, _tier: Tier) -> BoxedStrategy<UdpHistoryCase> {
         let protos: Vec<Proto> = Proto::all().into_iter().filter(|p| matches!(p, Proto::SsLegacy(_) | Proto::Ss22(_))).collect();
-        (proptest::sample::select(protos).prop_flat_map(gen::cred_for), proptest::collection::vec(1u8..30, 1..10), any::<u64>(), prop_oneof![3 => Just(0u8), 1 => 1u8..6])
-            .prop_map(|(CredGen { cred, .. }, sessions, seed, near_max)| UdpHistoryCase { cred, sessions, seed, near_max })
+        (proptest::sample::select(protos).prop_flat_map(gen::cred_for), proptest::collection::vec(1u8..30, 1..10), any::<u64>(), prop_oneof![3 => Just(0u8), 1 => 1u8..6], prop_oneof![1 => Just(0u8), 2 => 1u8..5])
+            .prop_map(|(CredGen { cred, .. }, sessions, seed, near_max, reply_every)| UdpHistoryCase { cred, sessions, seed, near_max, reply_every })
             .boxed()
     }
     fn exec(&self, c: &UdpHistoryCase) -> Outcome {
@@ -249,6 +253,7 @@ impl SubCheck for UdpHistory {
             }
             let mut last_pid: Option<u64> = None;
             let mut units = vec![];
+            let mut replies_fed = 0u64;
             for k in 0..*n {
                 let payload = gen::keystream(c.seed, k as usize, 10 + k as usize);
                 let mut wire = BytesMut::new();
@@ -281,6 +286,30 @@ impl SubCheck for UdpHistory {
                                     }
                                 }
                                 last_pid = Some(d.pkt.pid);
+                                // asymmetric traffic: now and then a server reply arrives between two sends
+                                if c.reply_every > 0 && (k + 1) % c.reply_every == 0 && !near {
+                                    replies_fed += 1;
+                                    let rp = ss2022::UdpServerPacket {
+                                        ssid: 0x5e55_1000_0000_0000 | si as u64,
+                                        pid: replies_fed,
+                                        typ: 1,
+                                        ts: T0,
+                                        client_sid: d.pkt.sid,
+                                        padding: vec![],
+                                        addr: Addr::V4([8, 8, 8, 8], 53),
+                                        payload: vec![b'r'; 5],
+                                        xnonce: if cc22.is_aes() { vec![] } else { gen::keystream(c.seed ^ 0x77, (si * 1000 + k as usize) * 24, 24) },
+                                    };
+                                    let mut w = BytesMut::from(&ss2022::encode_udp_server(cc22, &keys.client_upsk, &rp)[..]);
+                                    match rt::catch(|| cc.decode(&mut w)) {
+                                        Ok(Ok(Some(_))) => {
+                                            out.label("reply-decoded-between-sends");
+                                        }
+                                        other => {
+                                            out.label(format!("reply-not-accepted:{}", match other { Ok(Ok(None)) => "none", Ok(Err(_)) => "err", _ => "panic" }));
+                                        }
+                                    }
+                                }
                                 if k == 0 {
                                     if let Some(prev) = sids.insert(d.pkt.sid, si) {
                                         out.fail(format!("udp-history/{}/session-id-repeated", fam), format!("sessions {} and {} share client session id {:#x}", prev, si, d.pkt.sid));
@@ -305,6 +334,117 @@ impl SubCheck for UdpHistory {
             out.nontrivial(format!("{}|{}|{}", c.cred.proto.short(), c.sessions.len(), c.near_max > 0));
         }
         out
+    }
+}
+
+
+// ---------------------------------------------------------------------------------------------- the running server's UDP sessions
+
+/// The server's side of a UDP session (server session id, reply packet ids) lives inside the running server and is
+/// reachable only through its socket: a reference client talks to the real server and the reference decoder reads
+/// (session id, packet id) of both directions off the wire.
+#[derive(Clone, Debug, Serialize, Deserialize)]
+pub struct ServerUdpCase {
+    pub cipher: ss2022::C22,
+    pub n_users: u8,
+    pub seed: u64,
+    /// datagrams per client session
+    pub sessions: Vec<u8>,
+}
+
+pub struct ServerUdpSessions;
+
+impl SubCheck for ServerUdpSessions {
+    type Case = ServerUdpCase;
+    fn name(&self) -> &'static str {
+        "server-udp-sessions"
+    }
+    fn strategy(&self, _tier: Tier) -> BoxedStrategy<ServerUdpCase> {
+        (proptest::sample::select(ss2022::C22::ALL.to_vec()), 0u8..3, 1u64..1_000_000, proptest::collection::vec(1u8..6, 1..5))
+            .prop_map(|(cipher, n_users, seed, sessions)| ServerUdpCase { cipher, n_users, seed, sessions })
+            .boxed()
+    }
+    fn exec(&self, c: &ServerUdpCase) -> Outcome {
+        use crate::sys::cluster::{Cluster, Spec, Transport};
+        use crate::sys::net::UdpTarget;
+        use crate::sys::refpeer::RefUdpClient;
+        let mut out = Outcome::new();
+        let mut spec = Spec::new(Proto::Ss22(c.cipher), Transport::Tcp);
+        spec.udp = true;
+        spec.n_users = if c.cipher.is_aes() { c.n_users } else { 0 };
+        spec.seed = c.seed;
+        let mut cl = match Cluster::start(&spec) {
+            Ok(cl) => cl,
+            Err(_) => return out, // start-up trouble is C01/C16's business
+        };
+        let target = UdpTarget::spawn(0, true);
+        let taddr = Addr::V4([127, 0, 0, 1], target.port);
+        // every sealed datagram of either direction: (session id that keys it, packet id)
+        let mut pairs: HashMap<(u64, u64), String> = HashMap::new();
+        let mut ssids: HashMap<u64, usize> = HashMap::new();
+        let mut replies_total = 0;
+        for (si, n) in c.sessions.iter().enumerate() {
+            let sid = 0xc12c_0000_0000_0000u64 ^ (c.seed << 8) ^ si as u64;
+            let Ok(rc) = RefUdpClient::new(&cl.cred, cl.server_port, sid) else { return out };
+            for k in 1..=*n as u64 {
+                rc.send(k, &taddr, format!("c12-{}-{}", si, k).as_bytes());
+                if let Some(prev) = pairs.insert((sid, k), format!("client session {} datagram {}", si, k)) {
+                    out.fail("server-udp-sessions/harness", format!("harness reused {:?}: {}", (sid, k), prev));
+                    return out;
+                }
+                std::thread::sleep(std::time::Duration::from_millis(3));
+            }
+            let raws = rc.recv_raw(std::time::Duration::from_millis(if rt::failed_already() { 400 } else { 1200 }), *n as usize);
+            let mut last: Option<u64> = None;
+            for (j, w) in raws.iter().enumerate() {
+                let Ok(d) = ss2022::decode_udp_server(c.cipher, &rc.keys.client_upsk, w) else { continue }; // C03's business
+                replies_total += 1;
+                if d.pkt.ssid == sid {
+                    out.fail(
+                        "server-udp-sessions/server-session-id-equals-client-session-id",
+                        format!("session {}: the server's session id {:#x} is the client's session id; with the AES ciphers both directions then share the session sub-key, and equal packet ids share the nonce", si, sid),
+                    );
+                    return out;
+                }
+                if j == 0 {
+                    if let Some(prev) = ssids.insert(d.pkt.ssid, si) {
+                        if prev != si {
+                            out.fail("server-udp-sessions/server-session-id-repeated", format!("client sessions {} and {} were answered under the same server session id {:#x}", prev, si, d.pkt.ssid));
+                            return out;
+                        }
+                    }
+                }
+                if let Some(l) = last {
+                    if d.pkt.pid <= l {
+                        out.fail("server-udp-sessions/reply-packet-id-not-strictly-increasing", format!("session {}: reply packet id {} follows {}", si, d.pkt.pid, l));
+                        return out;
+                    }
+                }
+                last = Some(d.pkt.pid);
+                if let Some(prev) = pairs.insert((d.pkt.ssid, d.pkt.pid), format!("server reply {} of session {}", j, si)) {
+                    out.fail("server-udp-sessions/key-nonce-pair-reused", format!("(session id {:#x}, packet id {}) seals both '{}' and 'server reply {} of session {}'", d.pkt.ssid, d.pkt.pid, prev, j, si));
+                    return out;
+                }
+            }
+        }
+        if cl.health().is_err() {
+            return out; // C07/C08's business
+        }
+        out.weight = pairs.len() as u64;
+        out.label(format!("proto:ss/{}", c.cipher.name()));
+        if c.sessions.len() >= 2 && replies_total >= 2 {
+            out.nontrivial(format!("{}|{:?}", c.cipher.name(), c.sessions));
+        }
+        out
+    }
+    fn workers(&self) -> usize {
+        (rt::threads() / 2).clamp(1, 8)
+    }
+    fn max_shrink_iters(&self) -> u32 {
+        20
+    }
+    fn confirm_runs(&self) -> u32 {
+        2
     }
 }
 
@@ -407,7 +547,7 @@ fn freshness_and_bias(ctx: &PropCtx) {
 }
 
 pub fn subs() -> Vec<Box<dyn DynSub>> {
-    vec![Box::new(TcpHistory), Box::new(UdpHistory)]
+    vec![Box::new(TcpHistory), Box::new(UdpHistory), Box::new(ServerUdpSessions)]
 }
 
 pub fn run(ctx: &mut PropCtx) {
@@ -425,5 +565,6 @@ pub fn run(ctx: &mut PropCtx) {
     let t = ctx.tier;
     rt::run_sub(ctx, &TcpHistory, t.pick(3_000, 60_000));
     rt::run_sub(ctx, &UdpHistory, t.pick(6_000, 100_000));
+    rt::run_sub(ctx, &ServerUdpSessions, t.pick(40, 600));
     freshness_and_bias(ctx);
 }
